@@ -133,6 +133,36 @@ def ob_redecorate(i1: int, i2: int, inner: int, outer: int, boundary: bool) -> b
         return H.verdict(not probs)
 
 
+def ob_wraps(variant: int, i1: int, spelled_first: bool) -> bool:
+    """
+    pre: 0 <= variant <= 1
+    pre: 0 <= i1 <= 5
+    post: _
+    """
+    H.enter()
+    # functools.wraps wrappers: Python binds a call against the wrapper's *own* signature and defaults
+    v, a = H.select(variant, 0, 1), U[H.select(i1, 0, 5)]
+    sf = bool(spelled_first)
+    H.known("KF-C02-wraps-differing-defaults", v == 1)
+    with H.native():
+        w = memcalls.World()
+        probs = []
+        with memlib.env(w.fs, w.clock):
+            w.new_process()
+            plain = memcalls.resolve(w.ns, ["ws", "wd"][v])
+            g = w.mem.cache(plain)
+            calls = [((a, 2), {}), ((a,), {})]          # b spelled out as 2 / b left to the wrapper's default
+            if not sf:
+                calls.reverse()
+            for args, kwargs in calls:
+                got, want = g(*args, **kwargs), plain(*args, **kwargs)
+                if got != want:
+                    probs.append("%s%r returned %r, the function computes %r" % (["ws", "wd"][v], args, got, want))
+        for m in probs:
+            H.note(m)
+        return H.verdict(not probs)
+
+
 def validate():
     from symx.stubs import fakefs
     rows = fakefs.selfcheck()
@@ -152,6 +182,9 @@ def validate():
 
 def obligations(tier, seed):
     obs = []
+    obs.append({"name": "wraps", "fn": "ob_wraps", "mode": "S", "timeout": 120, "kf": ["KF-C02-wraps-differing-defaults"],
+                "bounds": "functools.wraps wrappers whose own default for b equals / differs from the wrapped function's; "
+                          "f(a, 2) and f(a) in both orders, 6 values of a"})
     obs.append({"name": "redecorate", "fn": "ob_redecorate", "mode": "S", "timeout": 600,
                 "bounds": "h = cache(cache(f, ignore=I), ignore=O) for I, O in {[], ['b'], ['a']}; 4 calls over two of 6 "
                           "near-colliding values x b in {2, 5}; with or without a fresh process in between"})
